@@ -78,6 +78,12 @@ type scenario struct {
 	Raw         []rawEntry `json:"raw,omitempty"`
 	Archive     string     `json:"archive,omitempty"` // zip | tar (view / readonly / closed)
 	CloseOrder  string     `json:"close_order,omitempty"` // closed: "" = fs.Close() | file-fs | fs-file | fs-fs
+	DestSpell   string     `json:"dest_spelling,omitempty"` // round: how the destination is written (trailing, inner-dot, double-sep, dotdot, dot-trailing, relative, rel-dot)
+	ViewLim     string     `json:"view_limit,omitempty"`    // view: limits relative to the archive's own size (size-1, size, size+1, huge, depth0)
+	FaultSide   string     `json:"fault_side,omitempty"`    // fault: unzip | zip
+	FaultOp     string     `json:"fault_op,omitempty"`      // fault: back-end operation that fails (f.Write, f.Close, MkdirAll, Chtimes, OpenFile, ...)
+	FaultK      int        `json:"fault_k,omitempty"`       // fault: the k-th such operation (0-based)
+	Lose        bool       `json:"fault_loses_data,omitempty"` // fault: the failing Close also loses the file's data (delayed allocation)
 }
 
 func (n nodeSpec) content() []byte {
@@ -422,6 +428,37 @@ func readZipListing(w *world, archive string) (names []string, sizes []int64, se
 	return
 }
 
+// spellDest writes the clean absolute destination in another, equivalent way
+func spellDest(dest, how string) string {
+	dir, base := filepath.Dir(dest), filepath.Base(dest)
+	switch how {
+	case "trailing":
+		return dest + "/"
+	case "inner-dot":
+		return dir + "/./" + base
+	case "double-sep":
+		return dir + "//" + base
+	case "dotdot":
+		return dir + "/zz/../" + base
+	case "dot-trailing":
+		return dest + "/."
+	case "relative", "rel-dot":
+		rel := strings.TrimPrefix(dest, "/") // in-memory back end: relative names are a namespace of their own
+		if strings.HasPrefix(dest, scratch) {
+			if cwd, err := os.Getwd(); err == nil {
+				if x, err := filepath.Rel(cwd, dest); err == nil {
+					rel = x
+				}
+			}
+		}
+		if how == "rel-dot" {
+			return "./" + rel
+		}
+		return rel
+	}
+	return dest
+}
+
 func runRound(r *h.Run, sc scenario, emit bool) {
 	r.Eval()
 	w := newWorld(sc.Backend)
@@ -466,13 +503,18 @@ func runRound(r *h.Run, sc scenario, emit bool) {
 		}
 	}
 	var list []string
+	spelled := spellDest(dest, sc.DestSpell)
 	if sc.Limits == nil {
-		list, err = w.fs.Unzip(archive, dest)
+		list, err = w.fs.Unzip(archive, spelled)
 	} else {
-		list, err = w.fs.UnzipWithContextAndLimits(ctx, archive, dest, limits)
+		list, err = w.fs.UnzipWithContextAndLimits(ctx, archive, spelled, limits)
 	}
+	dest = filepath.Clean(spelled) // what the library works with; everything below is relative to it
 	kind := errKind(err)
 	r.Count("round:" + sc.Backend + ":" + kind)
+	if sc.DestSpell != "" {
+		r.Count("round:dest-spelling=" + sc.DestSpell + ":" + kind)
+	}
 	got, derr := w.dump(dest)
 	if derr != nil && err == nil {
 		r.Fail("roundtrip-dump-error", "cannot walk the extraction: "+derr.Error(), sc)
@@ -679,7 +721,22 @@ func openView(r *h.Run, w *world, sc scenario) (filesystem.ICloseableFS, filesys
 		r.Count("skipped:tar-writer-refused")
 		return nil, nil, "", false
 	}
-	limits, _ := sc.Limits.resolve(sc.Tree, 1<<30)
+	st, _ := w.raw.Stat(archive)
+	limits, lim := sc.Limits.resolve(sc.Tree, st.Size())
+	if sc.ViewLim != "" {
+		l := limSpec{MaxFile: st.Size(), MaxTotal: 1 << 40, MaxCount: 1 << 30, MaxDepth: -1}
+		switch sc.ViewLim {
+		case "size-1":
+			l.MaxFile = st.Size() - 1
+		case "size+1":
+			l.MaxFile = st.Size() + 1
+		case "huge":
+			l.MaxFile = 1 << 40
+		case "depth0":
+			l.MaxDepth = 0
+		}
+		limits, lim = filesystem.NewLimits(l.MaxFile, uint64(l.MaxTotal), l.MaxCount, l.MaxDepth, false), &l
+	}
 	var v filesystem.ICloseableFS
 	var f filesystem.File
 	var err error
@@ -687,6 +744,24 @@ func openView(r *h.Run, w *world, sc scenario) (filesystem.ICloseableFS, filesys
 		v, f, err = filesystem.NewZipFileSystem(w.fs, archive, limits)
 	} else {
 		v, f, err = filesystem.NewTarFileSystem(w.fs, archive, limits)
+	}
+	if lim != nil {
+		// the archive-size guard of newZipReader / newTarReader: refused (too large) iff the archive is strictly larger
+		refused := commonerrors.Any(err, commonerrors.ErrTooLarge)
+		r.Case(fmt.Sprintf("(COpen %s %s %s)", coqLim(lim), h.Z(st.Size()), h.Bool(refused)), map[string]any{"scenario": sc, "archive_size": st.Size(), "refused": refused})
+		r.Count(fmt.Sprintf("view-open:%s:limit=%s:%s", sc.Archive, sc.ViewLim, errKind(err)))
+		if lim.MaxFile < st.Size() {
+			if err == nil {
+				r.Fail("view-open-limit-ignored:"+sc.Archive, fmt.Sprintf("the %s archive has %d bytes, the limits allow %d, yet the file system opens", sc.Archive, st.Size(), lim.MaxFile), sc)
+				_ = v.Close()
+			} else if !refused {
+				r.Fail("view-open-error-kind:"+sc.Archive, fmt.Sprintf("archive above the size limit refused with %v instead of the too-large kind", err), sc)
+			}
+			if f != nil {
+				_ = f.Close()
+			}
+			return nil, nil, "", false
+		}
 	}
 	if err != nil || v == nil {
 		r.Fail("view-open-error:"+sc.Archive, fmt.Sprintf("cannot open the %s file system over an archive of the tree: %v", sc.Archive, err), sc)
@@ -1455,6 +1530,220 @@ func runClosed(r *h.Run, sc scenario, emit bool) {
 	r.Distinct(fmt.Sprintf("closed|%s|%v", sc.Archive, sc.Tree))
 }
 
+// ---------------------------------------------------------------- fault injection (success => faithful)
+
+type discrepancy struct{ sig, what string }
+
+// compareExtraction: is the tree under dest exactly `want`, and does the list name exactly the listed entries?
+func compareExtraction(want map[string]nodeSpec, unlisted map[string]bool, got map[string]dumpNode, list []string, dest string) (out []discrepancy) {
+	for rel, n := range want {
+		g, ok := got[rel]
+		switch {
+		case !ok:
+			out = append(out, discrepancy{"missing", fmt.Sprintf("entry %q is missing", rel)})
+		case g.Dir != n.Dir:
+			out = append(out, discrepancy{"kind", fmt.Sprintf("entry %q changed kind", rel)})
+		case !n.Dir && !bytes.Equal(g.Data, n.content()):
+			out = append(out, discrepancy{"content", fmt.Sprintf("content of %q: %s instead of %s", rel, short(g.Data), short(n.content()))})
+		case !unlisted[rel] && g.MTime.Unix() != time.Unix(0, n.MTime).Unix():
+			out = append(out, discrepancy{"mtime", fmt.Sprintf("mtime of %q: %v instead of %v", rel, g.MTime.UTC(), time.Unix(0, n.MTime).UTC())})
+		}
+	}
+	for rel := range got {
+		if _, ok := want[rel]; !ok {
+			out = append(out, discrepancy{"extra", fmt.Sprintf("%q is not in the tree", rel)})
+		}
+	}
+	seen := map[string]int{}
+	for _, p := range list {
+		rel, err := filepath.Rel(dest, p)
+		if err != nil {
+			rel = p
+		}
+		seen[filepath.ToSlash(rel)]++
+	}
+	for rel := range want {
+		if !unlisted[rel] && seen[rel] != 1 {
+			out = append(out, discrepancy{"list", fmt.Sprintf("the list names %q %d times", rel, seen[rel])})
+		}
+	}
+	return
+}
+
+type faultWorld struct {
+	world
+	mem afero.Fs
+	sh  *shim.Fs
+}
+
+func newFaultWorld() *faultWorld {
+	worldSeq++
+	m := afero.NewMemMapFs()
+	base := fmt.Sprintf("/f%d", worldSeq)
+	_ = m.MkdirAll(base, 0o755)
+	sh := shim.New(m, nil)
+	return &faultWorld{world: world{fs: filesystem.NewVirtualFileSystem(sh, filesystem.InMemoryFS, filesystem.IdentityPathConverterFunc), raw: m, base: base}, mem: m, sh: sh}
+}
+
+var faultOps = map[string][]string{
+	"unzip": {"MkdirAll", "OpenFile", "f.Write", "f.Close", "Chtimes", "f.Read", "f.ReadAt", "Stat", "Open"},
+	"zip":   {"Create", "f.Write", "f.Close", "Open", "f.Read", "f.Readdirnames", "Lstat", "Stat"},
+}
+
+// faultScope: which paths of the operation are subject to the fault
+func faultScope(side, op, src, archive, dest string) string {
+	if side == "unzip" {
+		if op == "f.Read" || op == "f.ReadAt" {
+			return archive
+		}
+		return dest
+	}
+	switch op {
+	case "Create", "f.Write", "f.Close":
+		return archive
+	}
+	return src
+}
+
+// runFault: one run with the k-th matching operation failing; returns how many matching operations were seen.
+// Oracle: Unzip returned nil => the tree on disk is the archived tree and the list is exact;
+//         Zip returned nil   => the archive lists every entry of the tree with its full content.
+func runFault(r *h.Run, sc scenario) int {
+	r.Eval()
+	w := newFaultWorld()
+	src, archive, dest := filepath.Join(w.base, "src"), filepath.Join(w.base, "a.zip"), filepath.Join(w.base, "out")
+	if err := w.build(src, sc.Tree); err != nil {
+		r.Count("skipped:build-error")
+		return 0
+	}
+	scope := faultScope(sc.FaultSide, sc.FaultOp, src, archive, dest)
+	seen := 0
+	injected := false
+	closedOnce := map[string]bool{} // a handle's data is committed by its FIRST Close: later Closes of the same handle are not fault points
+	hook := func(op *shim.Op) error {
+		switch op.Name {
+		case "Create", "OpenFile", "Open":
+			closedOnce[op.Path] = false
+		case "f.Close":
+			if closedOnce[op.Path] {
+				return nil
+			}
+			closedOnce[op.Path] = true
+		}
+		if op.Name != sc.FaultOp || !(op.Path == scope || strings.HasPrefix(op.Path, scope+"/")) {
+			return nil
+		}
+		if sc.FaultOp == "f.Close" && scope != archive && sc.FaultSide == "zip" {
+			return nil
+		}
+		k := seen
+		seen++
+		if k != sc.FaultK || sc.FaultK < 0 {
+			return nil
+		}
+		injected = true
+		if sc.Lose {
+			if fh, err := w.mem.OpenFile(op.Path, os.O_WRONLY|os.O_TRUNC, 0o644); err == nil {
+				_ = fh.Close()
+			}
+		}
+		return fmt.Errorf("injected fault on %s %s: no space left on device", op.Name, op.Path)
+	}
+	if sc.FaultSide == "unzip" {
+		if err := w.fs.Zip(src, archive); err != nil {
+			r.Fail("roundtrip-zip-error:"+errKind(err), "Zip failed: "+err.Error(), sc)
+			return 0
+		}
+		w.sh.SetHook(hook)
+		list, err := w.fs.Unzip(archive, dest)
+		w.sh.SetHook(nil)
+		r.Count(fmt.Sprintf("fault:unzip:%s:injected=%v:err=%v", sc.FaultOp, injected, err != nil))
+		if err == nil {
+			got, _ := w.dump(dest)
+			want, unlisted := expectedAfter(sc.Tree, false)
+			if ds := compareExtraction(want, unlisted, got, list, dest); len(ds) > 0 {
+				r.Fail("fault-unzip-silent:"+sc.FaultOp, fmt.Sprintf("the %s #%d of the extraction failed (data lost: %v) but Unzip returned nil, and the tree on disk is not the archived tree: %s (%d discrepancies)",
+					sc.FaultOp, sc.FaultK, sc.Lose, ds[0].what, len(ds)), sc)
+			}
+		}
+		return seen
+	}
+	w.sh.SetHook(hook)
+	err := w.fs.Zip(src, archive)
+	w.sh.SetHook(nil)
+	r.Count(fmt.Sprintf("fault:zip:%s:injected=%v:err=%v", sc.FaultOp, injected, err != nil))
+	if err == nil {
+		problem := ""
+		b, _ := afero.ReadFile(w.mem, archive)
+		zr, zerr := zip.NewReader(bytes.NewReader(b), int64(len(b)))
+		if zerr != nil {
+			problem = "the archive is unreadable: " + zerr.Error()
+		} else {
+			have := map[string][]byte{}
+			for _, zf := range zr.File {
+				rc, e := zf.Open()
+				if e != nil {
+					problem = "entry " + zf.Name + " cannot be opened: " + e.Error()
+					break
+				}
+				data, e := io.ReadAll(rc)
+				_ = rc.Close()
+				if e != nil {
+					problem = "entry " + zf.Name + " cannot be read: " + e.Error()
+					break
+				}
+				have[strings.TrimSuffix(zf.Name, "/")] = data
+			}
+			for _, n := range sc.Tree {
+				data, ok := have[n.Rel]
+				if problem == "" && !ok {
+					problem = fmt.Sprintf("entry %q is missing from the archive", n.Rel)
+				}
+				if problem == "" && !n.Dir && !bytes.Equal(data, n.content()) {
+					problem = fmt.Sprintf("entry %q holds %s instead of %s", n.Rel, short(data), short(n.content()))
+				}
+			}
+		}
+		if problem != "" {
+			r.Fail("fault-zip-silent:"+sc.FaultOp, fmt.Sprintf("the %s #%d failed while zipping (data lost: %v) but Zip returned nil and %s", sc.FaultOp, sc.FaultK, sc.Lose, problem), sc)
+		}
+	}
+	return seen
+}
+
+// faultSweep: for both sides and every operation kind, fail the first, second, middle and last occurrence
+func faultSweep(r *h.Run, tree []nodeSpec, all bool) {
+	for _, side := range []string{"unzip", "zip"} {
+		for _, op := range faultOps[side] {
+			n := runFault(r, scenario{Kind: "fault", Backend: "mem", Tree: tree, FaultSide: side, FaultOp: op, FaultK: -1})
+			ks := map[int]bool{}
+			if all {
+				for k := 0; k < n; k++ {
+					ks[k] = true
+				}
+			} else {
+				for _, k := range []int{0, 1, n / 2, n - 2, n - 1} {
+					if k >= 0 && k < n {
+						ks[k] = true
+					}
+				}
+			}
+			keys := make([]int, 0, len(ks))
+			for k := range ks {
+				keys = append(keys, k)
+			}
+			sort.Ints(keys)
+			for _, k := range keys {
+				runFault(r, scenario{Kind: "fault", Backend: "mem", Tree: tree, FaultSide: side, FaultOp: op, FaultK: k})
+				if op == "f.Close" || op == "f.Write" {
+					runFault(r, scenario{Kind: "fault", Backend: "mem", Tree: tree, FaultSide: side, FaultOp: op, FaultK: k, Lose: true})
+				}
+			}
+		}
+	}
+	r.Distinct(fmt.Sprintf("fault|%v", tree))
+}
+
 // ---------------------------------------------------------------- generators
 
 var nameAtoms = []string{
@@ -1711,6 +2000,8 @@ func runScenario(r *h.Run, sc scenario, emit bool) {
 		runReadOnly(r, sc)
 	case "closed":
 		runClosed(r, sc, emit)
+	case "fault":
+		runFault(r, sc)
 	}
 }
 
@@ -1728,6 +2019,15 @@ func main() {
 		os.Exit(2)
 	}
 	defer os.RemoveAll(scratch)
+	if abs, err := filepath.Abs(r.Out); err == nil {
+		r.Out = abs
+	}
+	if r.ReplayF != "" {
+		if abs, err := filepath.Abs(r.ReplayF); err == nil {
+			r.ReplayF = abs
+		}
+	}
+	_ = os.Chdir(scratch) // relative destinations are spelled from here
 	var sc scenario
 	if _, ok := r.ReplayObject(&sc); ok {
 		runScenario(r, sc, false)
@@ -1753,6 +2053,10 @@ func main() {
 		runScenario(r, scenario{Kind: "round", Backend: be, Tree: nestedExt, Limits: recLim}, false)
 		runScenario(r, scenario{Kind: "round", Backend: be, Tree: nestedExt}, false)
 		runScenario(r, scenario{Kind: "round", Backend: be, Tree: nestedExt, Limits: &limSpec{MaxFile: 1 << 30, MaxTotal: 1 << 32, MaxCount: 1 << 20, MaxDepth: 10}}, false)
+		for _, sp := range []string{"trailing", "inner-dot", "double-sep", "dotdot", "dot-trailing", "relative", "rel-dot"} {
+			runScenario(r, scenario{Kind: "round", Backend: be, Tree: corpus["dots"], DestSpell: sp}, true)
+			runScenario(r, scenario{Kind: "round", Backend: be, Tree: corpus["basic"], DestSpell: sp, Limits: &limSpec{Rel: true}}, true)
+		}
 		runScenario(r, scenario{Kind: "round", Backend: be, Tree: corpus["basic"], Prepopulate: true}, false)
 		runScenario(r, scenario{Kind: "round", Backend: be, Tree: corpus["dots"], ZipLimits: true, Limits: &limSpec{MaxFile: 1 << 30, MaxTotal: 1 << 32, MaxCount: 1 << 20, MaxDepth: 10}}, true)
 	}
@@ -1761,6 +2065,10 @@ func main() {
 			runScenario(r, scenario{Kind: "view", Backend: "os", Archive: ar, Tree: corpus[name]}, true)
 		}
 		runScenario(r, scenario{Kind: "view", Backend: "mem", Archive: ar, Tree: corpus["basic"], Limits: &limSpec{MaxFile: 1 << 30, MaxTotal: 1 << 32, MaxCount: 1 << 20, MaxDepth: -1}}, false)
+		for i, vl := range []string{"size-1", "size", "size+1", "huge", "depth0"} {
+			runScenario(r, scenario{Kind: "view", Backend: []string{"os", "mem"}[i%2], Archive: ar, Tree: corpus["basic"], ViewLim: vl}, false)
+			runScenario(r, scenario{Kind: "view", Backend: []string{"mem", "os"}[i%2], Archive: ar, Tree: corpus["deep"], ViewLim: vl}, false)
+		}
 		runScenario(r, scenario{Kind: "readonly", Backend: "os", Archive: ar, Tree: corpus["basic"]}, false)
 		runScenario(r, scenario{Kind: "readonly", Backend: "mem", Archive: ar, Tree: corpus["dots"]}, false)
 		runScenario(r, scenario{Kind: "closed", Backend: "os", Archive: ar, Tree: corpus["basic"]}, true)
@@ -1771,6 +2079,9 @@ func main() {
 			}
 		}
 	}
+	// fault sweeps: a tree with a file large enough for several writes, an empty file, nested and empty directories
+	faultTree := append(append([]nodeSpec{}, corpus["basic"]...), nodeSpec{Rel: "d1/payload.bin", Size: 65536 + 17, Seed: 7, MTime: t0 + 23e9}, nodeSpec{Rel: "d1/d2/text.txt", Size: 40000, Seed: 9, Comp: true, MTime: t0 + 29e9})
+	faultSweep(r, faultTree, r.Thorough() || r.Deep)
 	for i, es := range rawCorpus {
 		runScenario(r, scenario{Kind: "raw", Backend: []string{"os", "mem"}[i%2], Raw: es}, true)
 	}
@@ -1821,6 +2132,9 @@ func main() {
 		case 3:
 			sc.Limits = &limSpec{MaxFile: 1 << 30, MaxTotal: 1 << 34, MaxCount: 1 << 20, MaxDepth: -1, Recursive: true}
 		}
+		if !sc.Prepopulate && rg.Intn(3) == 0 {
+			sc.DestSpell = []string{"trailing", "inner-dot", "double-sep", "dotdot", "dot-trailing", "relative", "rel-dot"}[rg.Intn(7)]
+		}
 		if emit && emitted >= r.N(110, 400) {
 			emit = false
 		}
@@ -1840,7 +2154,7 @@ func main() {
 		}
 		ar := []string{"zip", "tar"}[rg.Intn(2)]
 		be := []string{"os", "mem"}[rg.Intn(2)]
-		runScenario(r, scenario{Kind: "view", Backend: be, Archive: ar, Tree: tree}, small && i < r.N(40, 200))
+		runScenario(r, scenario{Kind: "view", Backend: be, Archive: ar, Tree: tree, ViewLim: []string{"", "", "size-1", "size", "size+1", "huge", "depth0"}[rg.Intn(7)]}, small && i < r.N(40, 200))
 		if i%5 == 0 {
 			runScenario(r, scenario{Kind: "readonly", Backend: be, Archive: ar, Tree: tree}, false)
 		}
